@@ -76,6 +76,13 @@ def strata(tier):
         for doc in (TW, TW[::-1], {"k%d" % i: v for i, v in enumerate(TW)}, [[1, 1.0], [1.0, 1], [True, 1], [0.0, False, 0]]):
             parts = [{"p": "mol"}] if type(doc[0] if type(doc) is list else 0) is not list else [{"p": "list"}, {"p": "list"}]
             yield {"path": PC.mkpath(parts), "cond": cond, "doc": doc, "stratum": "typed-twins-in-one-test"}
+    # concrete paths spelled with a look-alike of the document's key / index (1 / True / 1.0): the reported path is the document's
+    tdoc = {1: "a", "k": ["x", "y"], 0: {"z": "q"}, "f": {2.0: "w", True: "t"}}
+    for parts in ([{"p": "prim", "v": True}], [{"p": "prim", "v": 1.0}], [{"p": "prim", "v": "k"}, {"p": "prim", "v": True}], [{"p": "prim", "v": "k"}, {"p": "prim", "v": False}],
+                  [{"p": "prim", "v": False}, {"p": "prim", "v": "z"}], [{"p": "prim", "v": 0.0}, {"p": "prim", "v": "z"}], [{"p": "prim", "v": "f"}, {"p": "prim", "v": 2}],
+                  [{"p": "prim", "v": "f"}, {"p": "prim", "v": 1}], [{"p": "prim", "v": "k"}, {"p": "prim", "v": 1.0}]):
+        for cond in (L("value", "is_instance", {"$type": "int"}), L("value", "equal_to", "nope"), L("value", "falsy")):
+            yield {"path": PC.mkpath(parts), "cond": cond, "doc": tdoc, "stratum": "look-alike-path-parts"}
     for cond in MULTI_XOR:
         for parts, doc in (([{"p": "list"}], [5, -10, 0, -1.5, True]), ([{"p": "map"}], {"a": 5, "b": -10, "c": 0}),
                            ([{"p": "mol"}, {"p": "mol"}], {"a": [5, -10], "b": {"x": 5, "y": -2.5}}), ([{"p": "prim", "v": 0}], [5, -10])):
@@ -189,6 +196,10 @@ def run(case, ctx):
         if [(p, v) for p, v, _ in fl] != exp_f:
             ctx.violate(f"C05/failures/{pcls}/{ccls}",
                         f"failures {[(p, v) for p, v, _ in fl]!r}\n model {exp_f!r}\n rule={rterm}\n doc={doc!r}")
+        elif canon([p for p, _, _ in fl]) != canon([p for p, _ in exp_f]):
+            # the TRUE concrete path: the document's own keys and indices, type and all (1 is not True is not 1.0)
+            ctx.violate(f"C05/failure-path-types/{pcls}/{ccls}", f"failure paths {[p for p, _, _ in fl]!r} are not type-exactly the document's "
+                        f"own keys / indices {[p for p, _ in exp_f]!r}; rule={rterm}")
         for p, v, reasons in fl:
             if not reasons or not all(isinstance(r, str) and r.strip() for r in reasons):
                 ctx.violate(f"C05/reasons/{pcls}/{ccls}", f"failure at {p!r} has reasons {reasons!r}; rule={rterm}")
